@@ -469,6 +469,37 @@ func c09RunEngine(c *core.Ctx, seq []c09Shape) {
 		eseq[i] = s
 	}
 	c09Judge(c, "DNSEngine", eseq, res.DNSRewrites(), all)
+	if c.Rng.Intn(3) == 0 && len(seq) > 0 {
+		// A result is a plain value: callers merge the rules of a second
+		// source (another engine, user rules) into it before asking for the
+		// effective rewrites, which are then those of the merged rules.
+		var extra []c09Shape
+		for i, n := 0, 1+c.Rng.Intn(3); i < n; i++ {
+			extra = append(extra, seq[c.Rng.Intn(len(seq))])
+		}
+		merged := append([]*rules.NetworkRule(nil), res.NetworkRules...)
+		mseq := append([]c09Shape(nil), eseq...)
+		for _, x := range extra {
+			r, err := rules.NewNetworkRule(x.text(), 2)
+			if err != nil {
+				return
+			}
+			merged = append(merged, r)
+			mseq = append(mseq, x)
+		}
+		if c.Rng.Intn(2) == 0 {
+			res.NetworkRules = merged
+		} else {
+			res.NetworkRules = append(res.NetworkRules, merged[len(res.NetworkRules):]...)
+		}
+		all2 := res.DNSRewritesAll()
+		if len(all2) != len(mseq) {
+			// (rules that are not rewrites sit between them; positions differ)
+			return
+		}
+		c.Event("engine_results_merged_with_other_rules", 1)
+		c09Judge(c, "DNSEngine(result merged with other rules)", mseq, res.DNSRewrites(), all2)
+	}
 }
 
 func init() {
@@ -478,6 +509,7 @@ func init() {
 		Rule: "all sequences of length 0..4 over an 18-symbol alphabet of rewrite shapes (A short/full, CNAME short/full, RCODE, MX, HTTPS, NS (a type without value parser) x important x exception, empty exceptions) " +
 			"[thorough: also length 5..6 over 7 symbols and length 5 over 16], plus PRNG-sampled sequences of length 5..12 (one in four: 13..52) over all ~90 shape variants, each fed as fresh rule objects to DNSResult.DNSRewrites and, sampled, through DNSEngine.MatchRequest; " +
 			"one sequence in three is also evaluated next to matching rules that are not rewrites (plain, exception, important, $dnstype, $client ones), directly and through the engine; " +
+			"one engine result in three is merged with freshly parsed rules (NetworkRules assigned or appended to) before the effective rewrites are asked for; " +
 			"oracle = reference filter of DNSRewritesAll() compared as sequences of rule texts (and object identity); non-trivial = sequence with at least one exception and one rewrite; distinct by sequence",
 		Assumptions: []string{
 			"a keyword NOERROR exception parses to the empty value; it is not generated as an exception (declared don't-care)",
